@@ -67,6 +67,19 @@ def step (op : String) (args : List String) : Option String :=
     -- a zero quantity equals the (absent) previous value, so nothing is patched
     let resS := match res with | some (n, q) => if q = 0 then "-" else s!"{n}:{q}" | none => "-"
     pure s!"anno={annoS} res={resS}"
+  | "node", steps => do
+    -- each step: type,id,zone,region,lookupFails; output per step: ok|err and the stored CR
+    let ss ← steps.mapM fun st =>
+      match st.splitOn "," with
+      | [t, i, z, r, f] => do pure (({ type := (← t.toNat?), id := (← i.toNat?), zone := (← z.toNat?), region := (← r.toNat?) } : NodeMeta), (← bool? f))
+      | _ => none
+    let crStr : Option NodeCR → String
+      | none => "-"
+      | some c => s!"{c.md.type},{c.md.id},{c.md.zone},{c.md.region}:" ++ (match c.capOf with | some t => toString t | none => "-")
+    let (_, outs) := ss.foldl (fun (acc : Option NodeCR × List String) st =>
+      let (cr', ok) := nodeReconcile acc.1 st.1 st.2
+      (cr', acc.2 ++ [(if ok then "ok " else "err ") ++ crStr cr'])) (none, [])
+    pure (" | ".intercalate outs)
   | _, _ => none
 
 end Terway.Drv.Capacity
